@@ -3,15 +3,15 @@ module verifharness
 go 1.18
 
 require (
+	github.com/launchdarkly/go-jsonstream/v3 v3.1.0
 	github.com/launchdarkly/go-sdk-common/v3 v3.1.0
+	github.com/launchdarkly/go-semver v1.0.3
 	github.com/launchdarkly/go-server-sdk-evaluation/v3 v3.0.0
+	github.com/mailru/easyjson v0.7.7
 )
 
 require (
 	github.com/josharian/intern v1.0.0 // indirect
-	github.com/launchdarkly/go-jsonstream/v3 v3.1.0 // indirect
-	github.com/launchdarkly/go-semver v1.0.3 // indirect
-	github.com/mailru/easyjson v0.7.7 // indirect
 	golang.org/x/exp v0.0.0-20220823124025-807a23277127 // indirect
 )
 
